@@ -26,6 +26,11 @@
 //   min_x_all | min_x <k> <i…>            solver entry only
 //   reset                                 same input again (solver entry: reset(...); adj: set(copy))
 //   set_alg <alg>                         adj entry only
+//   select <k>                            (before `new`) problem #k of this case (definition order, 1-based)
+//                                         becomes the one `new` uses; default: the problem defined last
+//   reset_new <k>                         ANOTHER input: solver entry reset(data of problem k) — the regularisation
+//                                         configured through min_x…() stays as it is; adj entry set(data of problem k);
+//                                         fresh / info / envinfo / rows refer to the object's current problem afterwards
 //   state | envinfo                       env solver entry: private state / input facts through GamaVerifProbe
 //   fresh <query…>                        the query on a brand-new object with the same configuration
 //                                         (current algorithm and current regularisation list)
@@ -187,6 +192,7 @@ struct Problem {
 struct Obj {
   std::string alg, entry;
   const Problem* P = nullptr;
+  const Problem* other = nullptr;      // argument of the pending `reset_new`
   // regularisation currently configured through the API (solver entry)
   int rmode = 0; std::vector<int> rlist;
   // solver entry
@@ -270,6 +276,7 @@ static bool query(Obj& o, const std::vector<std::string>& t) {
         s->min_x((int)o.rlist.size(), o.rlist.data()); std::cout << "ok\n";
       }
       else if (q == "reset") { o.feed(); std::cout << "ok\n"; }
+      else if (q == "reset_new") { if (!o.other) return false; o.P = o.other; o.other = nullptr; o.feed(); std::cout << "ok\n"; }
       else return false;
     } else {
       Adj* a = o.adj.get();
@@ -281,6 +288,7 @@ static bool query(Obj& o, const std::vector<std::string>& t) {
       else if (q == "qbb") out_val(a->q_bb(I(1), I(2)));
       else if (q == "set_alg") { Adj::algorithm en; if (!Obj::alg_enum(t.at(1), en)) return false; o.alg = t[1]; a->set_algorithm(en); std::cout << "ok\n"; }
       else if (q == "reset") { a->set(o.P->make(true)); std::cout << "ok\n"; }
+      else if (q == "reset_new") { if (!o.other) return false; o.P = o.other; o.other = nullptr; a->set(o.P->make(true)); std::cout << "ok\n"; }
       else return false;
     }
   } catch (const MVE& e) { std::cout << "throw " << kind(e.error()) << "\n"; }
@@ -291,36 +299,39 @@ static bool query(Obj& o, const std::vector<std::string>& t) {
 }
 
 int main() {
-  std::unique_ptr<Problem> P;
+  std::vector<std::unique_ptr<Problem>> Ps;   // all problems of the case, in definition order
+  Problem* P = nullptr;                       // the one `new` uses
+  std::unique_ptr<Problem> D;                 // being defined
   std::unique_ptr<Obj> O;
   bool defining = false;
   std::string line; bool is_case;
   while (vp::next(line, is_case)) {
-    if (is_case) { O.reset(); P.reset(); defining = false; continue; }
+    if (is_case) { O.reset(); Ps.clear(); P = nullptr; D.reset(); defining = false; continue; }
     std::vector<std::string> t = vp::tokens(line);
     if (t.empty()) continue;
     try {
-      if (t[0] == "problem") { O.reset(); P.reset(new Problem); P->m = std::stoi(t.at(1)); P->n = std::stoi(t.at(2)); defining = true; continue; }
+      if (t[0] == "problem") { O.reset(); D.reset(new Problem); D->m = std::stoi(t.at(1)); D->n = std::stoi(t.at(2)); defining = true; continue; }
       if (defining) {
-        if (t[0] == "row") { int k = std::stoi(t.at(1)); std::vector<std::pair<int, double>> r; for (int i = 0; i < k; i++) r.push_back({std::stoi(t.at(2 + 2 * i)), vp::unhex(t.at(3 + 2 * i))}); P->rows.push_back(r); }
-        else if (t[0] == "cov") { Problem::Blk b; b.dim = std::stoi(t.at(1)); b.width = std::stoi(t.at(2)); for (size_t i = 3; i < t.size(); i++) b.v.push_back(vp::unhex(t[i])); P->cov.push_back(b); }
-        else if (t[0] == "rhs") { for (size_t i = 1; i < t.size(); i++) P->rhs.push_back(vp::unhex(t[i])); }
-        else if (t[0] == "minx") { if (t.at(1) == "none") P->minx_mode = 0; else if (t[1] == "all") P->minx_mode = 1; else { P->minx_mode = 2; for (int k = 0; k < std::stoi(t[1]); k++) P->minx.push_back(std::stoi(t.at(2 + k))); } }
+        if (t[0] == "row") { int k = std::stoi(t.at(1)); std::vector<std::pair<int, double>> r; for (int i = 0; i < k; i++) r.push_back({std::stoi(t.at(2 + 2 * i)), vp::unhex(t.at(3 + 2 * i))}); D->rows.push_back(r); }
+        else if (t[0] == "cov") { Problem::Blk b; b.dim = std::stoi(t.at(1)); b.width = std::stoi(t.at(2)); for (size_t i = 3; i < t.size(); i++) b.v.push_back(vp::unhex(t[i])); D->cov.push_back(b); }
+        else if (t[0] == "rhs") { for (size_t i = 1; i < t.size(); i++) D->rhs.push_back(vp::unhex(t[i])); }
+        else if (t[0] == "minx") { if (t.at(1) == "none") D->minx_mode = 0; else if (t[1] == "all") D->minx_mode = 1; else { D->minx_mode = 2; for (int k = 0; k < std::stoi(t[1]); k++) D->minx.push_back(std::stoi(t.at(2 + k))); } }
         else if (t[0] == "end") {
           defining = false;
-          bool good = (int)P->rows.size() == P->m && (int)P->rhs.size() == P->m;
-          int cd = 0; for (auto& b : P->cov) { cd += b.dim; if ((int)b.v.size() != b.dim * (b.width + 1) - b.width * (b.width + 1) / 2) good = false; }
-          if (cd != P->m) good = false;
-          std::cout << (good ? "ok\n" : "bad-op\n"); if (!good) P.reset();
+          bool good = (int)D->rows.size() == D->m && (int)D->rhs.size() == D->m;
+          int cd = 0; for (auto& b : D->cov) { cd += b.dim; if ((int)b.v.size() != b.dim * (b.width + 1) - b.width * (b.width + 1) / 2) good = false; }
+          if (cd != D->m) good = false;
+          std::cout << (good ? "ok\n" : "bad-op\n"); if (good) { Ps.push_back(std::move(D)); P = Ps.back().get(); } else D.reset();
         }
         else std::cout << "bad-op\n";
         continue;
       }
       if (!P) { std::cout << "bad-op\n"; continue; }
-      if (t[0] == "new") { O.reset(new Obj); if (O->create(P.get(), t.at(1), t.at(2))) std::cout << "ok\n"; else { O.reset(); std::cout << "bad-op\n"; } continue; }
+      if (t[0] == "select") { size_t k = std::stoul(t.at(1)); if (k >= 1 && k <= Ps.size()) { P = Ps[k - 1].get(); O.reset(); std::cout << "ok\n"; } else std::cout << "bad-op\n"; continue; }
+      if (t[0] == "new") { O.reset(new Obj); if (O->create(P, t.at(1), t.at(2))) std::cout << "ok\n"; else { O.reset(); std::cout << "bad-op\n"; } continue; }
       if (!O) { std::cout << "bad-op\n"; continue; }
       if (t[0] == "fresh") {
-        Obj F; Problem Pc = *P;
+        Obj F; Problem Pc = *O->P;
         if (O->entry == "solver") { Pc.minx_mode = O->rmode; Pc.minx = O->rlist; }
         if (!F.create(&Pc, O->alg, O->entry)) { std::cout << "bad-op\n"; continue; }
         std::vector<std::string> q(t.begin() + 1, t.end());
@@ -334,31 +345,37 @@ int main() {
         continue;
       }
       if (t[0] == "info") {          // info <alg>: on a separate fresh object (must not disturb the object under test)
-        Obj F; Problem Pc = *P; Pc.minx_mode = 1; Pc.minx.clear();
+        Obj F; Problem Pc = *O->P; Pc.minx_mode = 1; Pc.minx.clear();
         std::string a = t.size() > 1 ? t[1] : O->alg;
-        const std::string e = (O->entry == "adj" || (a != "env" && !P->unit_cov())) ? "adj" : "solver";
+        const std::string e = (O->entry == "adj" || (a != "env" && !O->P->unit_cov())) ? "adj" : "solver";
         if (!F.create(&Pc, a, e)) { std::cout << "bad-op\n"; continue; }
         try {
           int d = e == "adj" ? F.adj->defect() : F.ls->defect();
-          std::cout << "info " << a << " " << P->n << " " << d << "\n";
+          std::cout << "info " << a << " " << O->P->n << " " << d << "\n";
         }
         catch (const MVE& ex) { std::cout << "throw " << kind(ex.error()) << "\n"; }
         catch (const GNU_gama::Exception::adjustment& ex) { std::cout << "throw adjustment\n"; }
         continue;
       }
       if (t[0] == "rows") {
-        std::cout << "rows " << P->m;
-        for (auto& r : P->rows) { std::cout << " " << r.size(); for (auto& e : r) std::cout << " " << e.first; }
+        std::cout << "rows " << O->P->m;
+        for (auto& r : O->P->rows) { std::cout << " " << r.size(); for (auto& e : r) std::cout << " " << e.first; }
         std::cout << "\n";
         continue;
       }
       if (t[0] == "envinfo") {       // facts of the envelope solver for the current configuration (fresh object)
-        Obj F; Problem Pc = *P;
+        Obj F; Problem Pc = *O->P;
         if (O->entry == "solver") { Pc.minx_mode = O->rmode; Pc.minx = O->rlist; }
         if (!F.create(&Pc, "env", "solver")) { std::cout << "bad-op\n"; continue; }
         try { GamaVerifProbe::env_info(*dynamic_cast<GamaVerifProbe::Env*>(F.ls.get()), std::cout); }
         catch (const MVE& e) { std::cout << "throw " << kind(e.error()) << "\n"; }
         continue;
+      }
+      if (t[0] == "reset_new") {
+        size_t k = std::stoul(t.at(1));
+        if (k < 1 || k > Ps.size()) { std::cout << "bad-op\n"; continue; }
+        if (O->entry == "solver" && O->alg != "env" && !Ps[k - 1]->unit_cov()) { std::cout << "bad-op\n"; continue; }
+        O->other = Ps[k - 1].get();
       }
       if (!query(*O, t)) std::cout << "bad-op\n";
     } catch (const std::exception& e) { std::cout << "bad-op\n"; }
